@@ -1154,6 +1154,12 @@ def discharge(ix, s):
             ub = upper_bound(ix, ops[1])
             if ub is not None and bits and ub <= bits:
                 return "D2 shift amount bounded below the operand width"
+            # the amount is the induction variable of a range with a constant end not above the width (`for bit in 0..8`)
+            rlv = loop_var(ix, ops[1])
+            if rlv and bits:
+                lo_, hi_ = ix.resolve(rlv[0]), ix.resolve(rlv[1])
+                if lo_[0] == "const" and hi_[0] == "const" and 0 <= lo_[1] and hi_[1] <= bits:
+                    return "D2 shift amount is the induction variable of a constant range within the operand width"
             # the amount is a counter tested against a constant <= width on a dominating edge (`while bit < 8 { x >> bit }`)
             ak = expr_key(ix, ops[1], casts=True)
             if ak and bits:
